@@ -31,12 +31,13 @@ type Profile struct {
 	MinTop   int
 	MaxTop   int
 	MaxDepth int
-	Title    bool                            // emit a <title> (tokens are class A: they live in head)
-	Attr     func(g *G, tag string) string   // extra attributes for any element ("" if none)
-	URL      func(g *G, kind string) string  // URL reference for anchors and media
-	LenMix   [3]int                          // weights of short / medium / long paragraphs
-	Inline   []wc                            // weights of inline run kinds
-	HeadJunk bool                            // script/style in head
+	Title    bool                           // emit a <title> (tokens are class A: they live in head)
+	Attr     func(g *G, tag string) string  // extra attributes for any element ("" if none)
+	URL      func(g *G, kind string) string // URL reference for anchors and media
+	LenMix   [3]int                         // weights of short / medium / long paragraphs
+	Inline   []wc                           // weights of inline run kinds
+	HeadJunk bool                           // script/style in head
+	Carriers int                            // percentage chance of class A / class B carriers inside cells, captions, tweets
 }
 
 func newG(t *rapid.T, p *Profile) *G {
@@ -171,12 +172,43 @@ func (g *G) inline(k int) string {
 			n = m + max(1, n-m)
 		case "br":
 			parts = append(parts, "<br>"+g.words(n))
+		case "hid":
+			g.push("ha")
+			parts = append(parts, g.hiddenOpen("span")+g.words(n)+"</span>")
+			g.pop()
+			n = 0
+		case "cbinl":
+			g.push("hb")
+			switch g.pick("cbi", "button", "select", "svg", "textarea", "input", "noscript", "object") {
+			case "button":
+				parts = append(parts, "<button>"+g.words(n)+"</button>")
+			case "select":
+				parts = append(parts, "<select><option>"+g.words(n)+"</option></select>")
+			case "svg":
+				parts = append(parts, "<svg><text>"+g.words(n)+"</text></svg>")
+			case "textarea":
+				parts = append(parts, "<textarea>"+g.words(n)+"</textarea>")
+			case "input":
+				parts = append(parts, `<input value="`+g.tok()+`">`)
+			case "noscript":
+				parts = append(parts, "<noscript>"+g.words(n)+"</noscript>")
+			case "object":
+				parts = append(parts, "<object>"+g.words(n)+"</object>")
+			}
+			g.pop()
+			n = 0
+		case "script":
+			parts = append(parts, strings.TrimSpace(g.script()))
+			n = 0
+		case "comment":
+			parts = append(parts, strings.TrimSpace(g.comment()))
+			n = 0
 		case "nest":
 			m := g.intn(1, n, "nestw")
 			parts = append(parts, "<em>"+g.words(m)+" <strong>"+g.words(max(1, n-m))+"</strong></em>")
 			n = m + max(1, n-m)
 		}
-		left -= n
+		left -= max(n, 1)
 	}
 	return strings.Join(parts, " ")
 }
@@ -314,8 +346,43 @@ func (g *G) dataTable() string {
 	return b.String()
 }
 
-// cell content of a data-table cell; profiles may override through CellHook.
+// carrier emits a class A or class B carrier usable inside cells, captions and tweets.
+func (g *G) carrier() string {
+	switch g.pick("car", "hidspan", "hiddiv", "script", "style", "comment", "classb", "hidspan", "script") {
+	case "hidspan":
+		g.push("ha")
+		defer g.pop()
+		return g.hiddenOpen("span") + g.words(g.intn(1, 4, "carw")) + "</span>"
+	case "hiddiv":
+		g.push("ha")
+		defer g.pop()
+		return g.hiddenOpen("div") + g.words(g.intn(1, 4, "carw")) + "</div>"
+	case "script":
+		return strings.TrimSpace(g.script())
+	case "style":
+		return strings.TrimSpace(g.style())
+	case "comment":
+		return strings.TrimSpace(g.comment())
+	default:
+		return strings.TrimSpace(g.classB())
+	}
+}
+
+func (g *G) maybeCarrier(label string) string {
+	if g.P.Carriers > 0 && g.chance(g.P.Carriers, label) {
+		return " " + g.carrier() + " "
+	}
+	return ""
+}
+
+// cell content of a data-table cell.
 func (g *G) cell() string {
+	if c := g.maybeCarrier("cellcar"); c != "" {
+		if g.chance(50, "cellcarpos") {
+			return g.words(g.intn(1, 4, "cw")) + c
+		}
+		return c + g.words(g.intn(1, 4, "cw"))
+	}
 	switch g.weighted("cellk", []wc{{"w", 60}, {"inl", 20}, {"img", 8}, {"list", 6}, {"p", 6}}) {
 	case "w":
 		return g.words(g.intn(1, 6, "cw"))
@@ -395,10 +462,13 @@ func (g *G) figure() string {
 	}
 	switch g.weighted("capk", []wc{{"none", 25}, {"text", 40}, {"link", 35}}) {
 	case "text":
-		b.WriteString("<figcaption" + g.at("figcaption") + ">" + g.words(g.intn(1, 12, "fcw")) + "</figcaption>")
+		b.WriteString("<figcaption" + g.at("figcaption") + ">" + g.words(g.intn(1, 12, "fcw")) + g.maybeCarrier("capcar") + "</figcaption>")
 	case "link":
-		b.WriteString("<figcaption" + g.at("figcaption") + ">" + g.words(g.intn(1, 8, "fcw")) +
-			` <a href="` + g.url("a") + `"` + g.at("a") + ">" + g.words(g.intn(1, 3, "fclw")) + "</a></figcaption>")
+		b.WriteString("<figcaption" + g.at("figcaption") + ">" + g.words(g.intn(1, 8, "fcw")) + g.maybeCarrier("capcar") +
+			` <a href="` + g.url("a") + `"` + g.at("a") + ">" + g.words(g.intn(1, 3, "fclw")) + "</a>" + g.maybeCarrier("capcar2") + "</figcaption>")
+	}
+	if c := g.maybeCarrier("figcar"); c != "" {
+		b.WriteString(c)
 	}
 	b.WriteString("</figure>\n")
 	return b.String()
@@ -441,7 +511,7 @@ func (g *G) tweet() string {
 	id := g.tokp("tw")
 	g.push("tw") // tweet words are moved wholesale into a placeholder
 	defer g.pop()
-	return `<blockquote class="twitter-tweet"` + g.at("blockquote") + `><p>` + g.words(g.intn(2, 12, "tww")) + `</p>&mdash; ` + g.words(2) +
+	return `<blockquote class="twitter-tweet"` + g.at("blockquote") + `><p>` + g.words(g.intn(2, 12, "tww")) + `</p>` + g.maybeCarrier("twcar") + `&mdash; ` + g.words(2) +
 		` <a href="https://twitter.com/user/status/` + id + `">` + g.words(2) + `</a></blockquote>` + "\n"
 }
 
